@@ -22,6 +22,20 @@ auxiliary-source view of the stage) and the Lean spec (closed form):
               the yield; two-source model `rsStepS`, theorems need_resample_step, resample_two_source)
   event     = outputs - ceil(delta - 1/2)       (data of every Streamix event)
   never     = 0 while the main source lasts     (streams appended after it: append / chain / Stream(a, b))
+Stopping stages (`probe` entry).  `Stream.limit`, `Stream.skip`, `islice` with a stop, `takewhile` - alone and inside
+chains of plain stages - are asked K times INCLUDING requests past their end (StopIteration): observed are reads at
+construction, at iter(), and the pull counter at every tap after every request; the Lean side runs the protocol with
+an exit test (`StopStage.probe`, Model/C02Stop.lean; theorems stop_truncates, asked_past_the_end, limit_probe, ...).
+Count parameters travel in their Python SPELLING (int / float / Fraction / bool / inf / nan, ties and negatives
+included); the rounding (`max(int(round(n)), 0)` half-to-even, `rint` half-away for take / peek, `int(dur + .5)` for
+attack) is done by the Lean model.  Drained plain stages are asked twice more after their end as well.
+
+Registry completeness (`extra_checks`): every public name of audiolazy.__all__, every strategy, every public method
+of Stream / StreamTeeHub / Streamix / TableLookup is covered by a registry entry, probed as an elementwise function,
+or excluded with a written reason; every parameter of the covered callables is classified (source / aux / scalar /
+callable / container).  Call shapes (positional / keyword / all keywords / defaults omitted) and the kind of source
+object (iterator / Stream / generator / non-iterator iterable) are case dimensions.
+
 `ctl` cases replay a ControlStream history (value set before every next()) against the same stage
 fed with plain streams holding, read by read, the values that read discipline makes visible: the
 outputs must be identical, i.e. a change made between two next() reaches exactly the reads made
@@ -41,7 +55,10 @@ RULE = ("every registry stage x >=3 parameter sets x 3 source modes (finite+slac
         "3 kinds of auxiliary source (finite+slack, exact+trip-wire, endless) with a counter on each declared "
         "argument, plus random chains of compatible stages "
         "(depth<=3 quick, <=5 thorough; every fifth with an auxiliary-source stage at a random position) with "
-        "counting taps at every boundary, plus ControlStream histories, plus take/peek consumers; "
+        "counting taps at every boundary, plus ControlStream histories, plus take/peek consumers (spelled counts: int / float "
+        "/ Fraction / bool / inf / nan, ties, negatives), plus stopping stages (limit / skip / islice-stop / takewhile, alone and "
+        "in chains <=3 quick, <=4 thorough) x 3 source modes asked up to 14 times incl. past their end, plus call shapes "
+        "(positional / keyword / defaults) and 4 kinds of head source object, drained stages asked twice past the end; "
         "a case is non-trivial when at least one output was demanded and delivered; distinct = distinct JSON case")
 TRUSTED = [
     "hand-written Lean models ALV/Model/C02.lean of the READ DISCIPLINE of each stage (prologue / one read per loop "
@@ -61,6 +78,17 @@ TRUSTED = [
     "Streamix event = outputs - ceil(T - 1/2) for the absolute event time T; modulo_counter/sinusoid read the step "
     "value together with the start value (BEFORE the yield) - that is the library's documented zip discipline, so a "
     "ControlStream frequency change reaches the output after the next one",
+    "stopping stages: the exit test is evaluated before a read (StopStage, Model/C02Stop.lean); chains with a stopping "
+    "stage are built as `cap` (hand on at most c outputs) followed by the plain loop - justified by the truncation theorem "
+    "stop_truncates; CPython's islice (reads `max(start, stop)` items when drained) and takewhile (reads the failing item) "
+    "are modelled from their C source and trusted as such; the chain-level closed forms needOfXChain are compared on every "
+    "case but proved only for limit, takewhile and S |> limit (probe_chain_eq_spec_PENDING)",
+    "count spellings: Python's round (half to even) for limit / skip, audiolazy's rint (half away from zero) for take / peek, "
+    "int(dur + .5) for attack are re-implemented on exact rationals in Lean (pyRound / rintPos / durLen); floats are sent as "
+    "their exact rational value, inf / nan as tags with the predicted exception",
+    "API completeness tables COVER / EXCLUDE / PARAMS in harness/props/c02.py are hand-written; the check enforces that they "
+    "are total and current with respect to audiolazy.__all__, the strategy dictionaries and the public methods, and that "
+    "parameter names match the signatures - not that a role (`scalar`) is right",
     "ControlStream histories compare the real code with itself (ControlStream arguments vs. plain streams scheduled "
     "from the Lean spec's read counters); outputs are compared by repr",
 ]
@@ -73,10 +101,19 @@ ASSUMPTIONS = [
     "resample step streams: exact non-negative rational values (old/new cyclic patterns), at most one time-varying "
     "resample per chain (its step list for the model is sized from the demand of the chain behind it, <= 1500 values)",
     "size>=1, hop>=1, hop<=size for overlap-add/STFT, resample order>=1 and old/new>0 (exact Fractions), Streamix delta>=0",
+    "stopping stages: plain stages placed BEHIND a stopping stage come from DRAIN_OK (their end-of-source behaviour is "
+    "modelled); resample with float old/new only for dyadic ratios (a float step like 3./7. accumulates rounding error and "
+    "reads one item more after 7 steps - float arithmetic, outside the exact model)",
+    "attack(a, d, s): a, d >= 0 numbers (int / float), s iterable; an EMPTY sustain is the known finding D22",
     "Stream.filter has no bound (the property gives none): its reads are compared with the position of the k-th passing item",
 ]
-MANIFEST = {"technique": "Lean 4 proof (generic transducer theory + per-stage need theorems) tied to /repo by "
-                         "differential pull counting with counting / trip-wire / endless sources"}
+MANIFEST = {"technique": "Lean 4 proof (generic transducer theory, per-stage need theorems, stages with an exit test: "
+                         "truncation / past-the-end / limit and takewhile closed forms, rounding of spelled counts) tied to "
+                         "/repo by differential pull counting with counting / trip-wire / endless sources, requests past the "
+                         "end, and a registry proved complete against the public API at run time",
+            "note": "68 stage constructors in the registry (incl. attack, chunks, groupby, pairwise, batched, starmap), 4 stopping "
+                    "stages; 46 elementwise functions probed; 111 public names excluded with a written reason; D22 "
+                    "(attack with an empty sustain raises RuntimeError) recorded as known finding with a proposed fix"}
 
 warnings.simplefilter("ignore")
 
@@ -1958,6 +1995,12 @@ def tally(eng, c, io):
     if c["entry"] != "reads":
         return
     for el in c["chain"]:
+        if "shape" in el["p"]:
+            eng.count("call_shape", "%s:%s" % (el["st"], el["p"]["shape"]))
+        if el["st"] == "resample" and "num" in el["p"]:
+            eng.count("count_spelling", "resample.old/new(%s)" % el["p"]["num"])
+        if el["st"] == "zero_pad":
+            eng.count("count_spelling", "zero_pad.left(%s)" % type(el["p"]["left"]).__name__)
         for k, v in el["p"].items():
             if isinstance(v, dict) and "kind" in v:
                 eng.count("count_spelling", "%s.%s(%s)" % (el["st"], k, spell_tag(v)))
